@@ -165,3 +165,14 @@ claim("C09",
       "full station power using the implementation's Battery); float execution with the property's 1e-4 tolerance. " + AX_R,
       "Coq proofs of the planning arithmetic and the guarantee induction + sampled end-to-end service predicate", "5.9",
       category="exploration")
+claim("C11",
+      "Theorem (on the clamp_power model): the individual-schedule command min(clamp_power(schedule + additional), head room) is never "
+      "below min(clamp_power(schedule), head room) for any additional power >= 0, and never above the head room. PARTIAL / sampled: "
+      "peak_load_window, flex_window and balanced_market are not modelled; 'no charging in discouraged periods when the encouraged "
+      "ones offer >= 1.3x the needed time, desired SoC still reached', 'balanced_market never pays more than greedy for equal energy' "
+      "and the schedule clause at the level of station powers are evaluated on generated scenarios over window/price alignments, "
+      "aligned/unaligned price events, schedule-change events, tight connectors.",
+      "Trusted: Coq kernel; harness scenario generator, recorder around Strategy.step, battery oracle (implementation's Battery); float "
+      "execution, energy tolerance 1e-4*capacity, SoC tolerance 1e-4. " + AX_R,
+      "Coq proof of the schedule command bound + sampled end-to-end signal predicates", "5.11",
+      category="exploration")
